@@ -232,8 +232,17 @@ def lean_check(prop_id: str, extra_targets: Iterable[str] = (), pre: Callable[[]
             t["mod"] = m_
             thms.append(t)
     with _Lock(LEAN / ".build.lock"):
+        pre_error = None
         if pre is not None:
-            rep.pre_result = pre()
+            try:
+                rep.pre_result = pre()
+            except Infra:
+                raise
+            except Exception:   # an extractor/translator that CRASHES on the source under test fails closed: the tie to the
+                # source was not re-established, so no theorem counts as checked against the code as it is now; the run
+                # goes on (stale Gen snapshot, driver still usable) so that the search can look for a failing input
+                pre_error = traceback.format_exc()
+                rep.pre_result = [{"id": "extractor-crashed", "error": pre_error[-1500:]}]
         try:
             rc, out, err = _run(["lake", "build"] + targets, cwd=LEAN, timeout=3000)
         except FileNotFoundError:
@@ -288,6 +297,8 @@ def lean_check(prop_id: str, extra_targets: Iterable[str] = (), pre: Callable[[]
                     rep.broken.append(t["name"])
         if not thms:
             rep.broken.append(mod)
+        if pre_error is not None:
+            rep.broken.append("tie-to-source: extractor crashed on the source under test: " + pre_error.strip().splitlines()[-1][:300])
         rep.wall_s = time.time() - t0
         return rep
     # axiom audit
@@ -322,6 +333,10 @@ def lean_check(prop_id: str, extra_targets: Iterable[str] = (), pre: Callable[[]
             rep.leanchecker = "leanchecker not available"
         except subprocess.TimeoutExpired:
             rep.leanchecker = "leanchecker timed out (not counted)"
+    if pre_error is not None:
+        for t in rep.theorems:
+            t["ok"] = False
+        rep.broken.append("tie-to-source: extractor crashed on the source under test: " + pre_error.strip().splitlines()[-1][:300])
     rep.ok = rep.build_ok and not rep.broken and not rep.forbidden and bool(thms)
     rep.wall_s = time.time() - t0
     return rep
